@@ -2,9 +2,9 @@
    This file holds ONLY the property theorems (each closed by `exact <lemma>`) and their Print Assumptions. *)
 From Coq Require Import ZArith List Bool Permutation.
 From Verif Require Import Containers.BitVecModel Containers.BitVecProofs Containers.ArenaModel Containers.ArenaProofs
-  Containers.VecModel Containers.VecProofs Containers.HashModel Containers.HashProofs Containers.StrModel Containers.StrProofs
-  Containers.TreeModel Containers.TreeProofs Containers.ArenaChainModel Containers.ArenaChainProofs
-  Containers.ListModel Containers.ListProofs Containers.RangeIterModel Containers.RangeIterProofs.
+  Containers.VecModel Containers.VecProofs Containers.WorldProofs Containers.World2Proofs Containers.HashModel Containers.HashProofs Containers.StrModel Containers.StrProofs
+  Containers.TreeModel Containers.TreeProofs Containers.TreeGeneral Containers.TreeRotate Containers.TreeRecolor Containers.TreeLink Containers.ArenaChainModel Containers.ArenaChainProofs
+  Containers.ListModel Containers.ListProofs Containers.BitSetModel Containers.BitSetProofs Containers.RangeIterModel Containers.RangeIterProofs.
 From VerifGen Require Import C18HashTable C18VecTable.
 Import ListNotations.
 Local Open Scope Z_scope.
@@ -188,13 +188,13 @@ Qed.
 Theorem C18_str_step_refines_bytes : forall mok s l o, str_inv s -> str_abs s = l ->
   let '(e, s') := sstep mok s o in
   (e = SOk /\ str_inv s' /\ str_abs s' = tstep l o) \/
-  ((e = SOutOfMemory \/ e = SInvalidArgument) /\ (is_format o = false -> s' = s) /\ s_size s' = s_size s).
+  ((e = SOutOfMemory \/ e = SInvalidArgument) /\ str_inv s' /\ str_abs s' = l /\ (is_format o = false -> s' = s) /\ s_size s' = s_size s).
 Proof. exact sstep_refines. Qed.
 Print Assumptions C18_str_step_refines_bytes.
 
-(* every operation sequence *)
-Theorem C18_str_ops_refine_bytes : forall mok ops s l s' l', str_inv s -> str_abs s = l -> srun mok s l ops = Some (s', l') ->
-  str_inv s' /\ str_abs s' = l'.
+(* every operation sequence, whichever allocations are refused *)
+Theorem C18_str_ops_refine_bytes : forall mok ops s l, str_inv s -> str_abs s = l ->
+  str_inv (fst (srun mok s l ops)) /\ str_abs (fst (srun mok s l ops)) = snd (srun mok s l ops).
 Proof. exact srun_refines. Qed.
 Print Assumptions C18_str_ops_refine_bytes.
 
@@ -219,12 +219,14 @@ Theorem C18_str_hex_pair : forall b, 0 <= b < 256 ->
 Proof. exact hex_pair_val. Qed.
 Print Assumptions C18_str_hex_pair.
 
-(* FALSE of the faithful model (and of the pinned code): "a failing operation leaves the string NUL terminated" *)
-Theorem C18_str_format_failure_keeps_terminator_refuted :
-  exists mok s text, str_inv s /\ fst (str_op_format mok s OpAppend text) = SOutOfMemory /\
-                     str_nul_ok (snd (str_op_format mok s OpAppend text)) = false.
-Proof. exact str_format_failure_loses_terminator_refuted. Qed.
-Print Assumptions C18_str_format_failure_keeps_terminator_refuted.
+(* a format whose allocation is refused leaves a valid string with the same bytes (model = code with
+   fixes/C18-string-format-failure.patch; round 1 had this as a refuted statement about the pinned code) *)
+Theorem C18_str_format_failure_keeps_string : forall mok s op text, str_inv s ->
+  let '(e, s') := str_op_format mok s op text in
+  (e = SOk /\ str_inv s' /\ str_abs s' = text_of op (str_abs s) text) \/
+  (e = SOutOfMemory /\ str_inv s' /\ str_abs s' = str_abs s /\ s_size s' = s_size s /\ s_cap s' = s_cap s /\ s_kind s' = s_kind s).
+Proof. exact str_op_format_sound. Qed.
+Print Assumptions C18_str_format_failure_keeps_string.
 
 Example C18_str_hypotheses_satisfiable : str_inv str_empty /\ str_abs str_empty = [].
 Proof. split; [exact str_inv_empty|reflexivity]. Qed.
@@ -348,3 +350,196 @@ Print Assumptions C18_range_iterator_small_scope.
 Theorem C18_range_iterator_unaligned_end_refuted : ranges W4 true [8] 0 2 100 = [(3, 2)].
 Proof. exact range_iter_unaligned_end_refuted. Qed.
 Print Assumptions C18_range_iterator_unaligned_end_refuted.
+
+(* ================================================================== (6') red-black tree: unbounded semantics of every checked state *)
+(* for a node heap of ANY size: if the state checker (evaluated by the model driver after every operation of the
+   correspondence run) accepts, then get finds exactly the members, the in-order traversal is the strictly sorted key list,
+   the root is black, the black height is the same on all paths with no red node having a red child, and the height is at
+   most twice (black height - 1). That insert/remove always produce an accepted state is proved in small scope only. *)
+Theorem C18_tree_checked_state_semantics : forall t, tree_state_ok t = true ->
+  exists a b, rep (heap t) (root t) a /\
+    (forall k, tree_get t k <> 0 <-> In k (tree_keys t)) /\
+    (forall k, tree_get t k = lookup a k) /\
+    tree_keys t = bkeys a /\ tree_inorder t = bflat a /\ sortedb (tree_keys t) = true /\
+    bred a = false /\ bbh a = Some b /\ Z.of_nat (bheight a) <= 2 * (b - 1).
+Proof. exact tree_state_ok_sound. Qed.
+Print Assumptions C18_tree_checked_state_semantics.
+
+(* ================================================================== the world: several vectors in ONE arena *)
+(* any number of vectors share one arena; a step is an operation on one of them (append, insert, remove, pop, clear, truncate,
+   reserve*, resize*, release, or an allocation by another user of the arena) or a soft/hard reset of the arena (after which
+   every container is reset). After the step: the arena invariant holds, EVERY vector satisfies its invariant (its buffer is
+   a live block of the arena of the right release class), the buffers of different vectors are different blocks, the
+   stepped vector holds the textbook result (unchanged on kOutOfMemory) and every other vector holds what it held *)
+Theorem C18_world_step_refines : forall mok isz w ls op, 0 < isz <= 2048 -> world_ok isz w ls -> wop_ok w op ->
+  let r := wstep vec_grow_table mok isz w op in
+  (fst r = EOk \/ fst r = EOutOfMemory) /\ world_ok isz (snd r) (lsstep ls op (fst r)).
+Proof. exact world_step_refines_table. Qed.
+Print Assumptions C18_world_step_refines.
+
+(* every interleaving (a foreign release — a block of another container: hash table, bit set, pool ... — must be a valid
+   release of a live block that is not a vector's buffer: wop_ok) *)
+Theorem C18_world_ops_refine_lists : forall mok isz ops w ls, 0 < isz <= 2048 -> world_ok isz w ls ->
+  wvalid vec_grow_table mok isz w ops ->
+  world_ok isz (fst (wrun vec_grow_table mok isz w ls ops)) (snd (wrun vec_grow_table mok isz w ls ops)).
+Proof. exact world_run_refines_table. Qed.
+Print Assumptions C18_world_ops_refine_lists.
+
+Example C18_world_hypotheses_satisfiable : world_ok 4 (mkw (arena_init 1024 0) (repeat vec_empty 3)) (repeat [] 3).
+Proof. apply world_ok_initial; [vm_compute; intuition discriminate|left; reflexivity]. Qed.
+
+(* ------------------------------------------------------------------ all containers in one arena: any number of vectors AND hash
+   tables share one arena; vector operations, hash inserts (with rehash and release of the old bucket array), hash
+   removes, foreign releases and arena resets (soft or hard) are interleaved in any order, with any malloc behaviour.
+   After every step: the arena invariant holds, every vector and every hash table satisfies its own invariant against
+   the shared arena (its buffer / bucket array is a live block of the right release class), and no two containers own
+   the same block *)
+Theorem C18_world2_step_ok : forall mok isz w op, 0 < isz <= 2048 -> world2_ok isz w -> w2op_ok w op ->
+  let r := w2step vec_grow_table hash_primes mok isz w op in
+  (fst r = EOk \/ fst r = EOutOfMemory) /\ world2_ok isz (snd r).
+Proof. exact (fun mok isz w op H => w2step_ok vec_grow_table hash_primes mok isz w op vec_grow_table_ok hash_primes_ok H). Qed.
+Print Assumptions C18_world2_step_ok.
+
+Theorem C18_world2_any_interleaving : forall mok isz ops w, 0 < isz <= 2048 -> world2_ok isz w ->
+  w2valid vec_grow_table hash_primes mok isz w ops -> world2_ok isz (w2run vec_grow_table hash_primes mok isz w ops).
+Proof. exact (fun mok isz ops w H => w2run_ok vec_grow_table hash_primes mok isz ops vec_grow_table_ok hash_primes_ok H w). Qed.
+Print Assumptions C18_world2_any_interleaving.
+
+Example C18_world2_hypotheses_satisfiable : world2_ok 4 (mkw2 (arena_init 1024 0) (repeat vec_empty 3) (repeat hash_empty 2)).
+Proof. apply world2_ok_initial; [vm_compute; intuition discriminate|left; reflexivity]. Qed.
+
+(* ================================================================== Arena::dup *)
+Theorem C18_arena_dup : forall mok a data nt, inv a -> 0 < Z.of_nat (length data) < 2 ^ 63 ->
+  let r := arena_dup mok a data nt in
+  inv (snd r) /\
+  match fst r with
+  | Some (p, bytes) => exists asz, In (p, asz) (live (snd r)) /\ Forall (disjoint (p, asz)) (regions a) /\ a_off p mod 8 = 0 /\
+                         Z.of_nat (length bytes) = asz /\ Z.of_nat (length data) + (if nt then 1 else 0) <= asz /\
+                         firstn (length data) bytes = data /\ Forall (fun b => b = 0) (skipn (length data) bytes)
+  | None => live (snd r) = live a
+  end.
+Proof. exact arena_dup_sound. Qed.
+Print Assumptions C18_arena_dup.
+
+(* ================================================================== ArenaBitSet: growing (second half of _resize) *)
+(* for every old and new size and whatever the uninitialised words hold: every old bit keeps its value, every new bit gets the
+   requested value (model = code with fixes/C18-bitset-resize-grow.patch; the pinned code violates both) *)
+Theorem C18_bitset_grow_bits : forall ws old_size new_size v j, 0 <= old_size < new_size -> new_size <= 64 * zlength ws ->
+  tail_clear ws old_size -> 0 <= j < new_size ->
+  bv_get 64 (grow_words ws old_size new_size v) j = if j <? old_size then bv_get 64 ws j else v.
+Proof. exact grow_words_get. Qed.
+Print Assumptions C18_bitset_grow_bits.
+
+(* and the unused bits of the new last word are clear (the precondition of the next resize) *)
+Theorem C18_bitset_grow_tail : forall ws old_size new_size v, 0 <= old_size < new_size -> new_size <= 64 * zlength ws ->
+  tail_clear (grow_words ws old_size new_size v) new_size.
+Proof. exact grow_words_tail. Qed.
+Print Assumptions C18_bitset_grow_tail.
+
+(* ================================================================== (6'') tree: building blocks of the unbounded proof *)
+(* frame rule: a heap update outside the nodes of a subtree does not change what the subtree represents *)
+Theorem C18_tree_rep_frame : forall h h' t n, (forall id, In id (bids t) -> hget h' id = hget h id) -> rep h n t -> rep h' n t.
+Proof. exact rep_frame. Qed.
+Print Assumptions C18_tree_rep_frame.
+
+(* _single_rotate on ANY heap representing a tree with distinct node ids: the result represents the rotated tree (same keys in
+   the same in-order sequence, same nodes, old root red, new root black) and no other node of the heap is touched *)
+Theorem C18_tree_single_rotate : forall h n t dir t', rep h n t -> NoDup (bids t) -> ids_pos t -> rot t dir = Some t' ->
+  let '(h', n') := single_rotate h n dir in
+  rep h' n' t' /\ (forall id, ~ In id (bids t) -> hget h' id = hget h id).
+Proof. exact single_rotate_rep. Qed.
+Print Assumptions C18_tree_single_rotate.
+
+Theorem C18_tree_rotation_keeps_inorder : forall t dir t', rot t dir = Some t' -> bkeys t' = bkeys t /\ bids t' = bids t.
+Proof. exact rot_keys. Qed.
+Print Assumptions C18_tree_rotation_keeps_inorder.
+
+(* _double_rotate on ANY heap: the result represents the doubly rotated tree (same in-order sequence, same nodes), no other
+   node of the heap is touched *)
+Theorem C18_tree_double_rotate : forall h n t dir t', rep h n t -> NoDup (bids t) -> ids_pos t -> drot t dir = Some t' ->
+  let '(h', n') := double_rotate h n dir in
+  rep h' n' t' /\ (forall id, ~ In id (bids t) -> hget h' id = hget h id).
+Proof. exact double_rotate_rep. Qed.
+Print Assumptions C18_tree_double_rotate.
+
+Theorem C18_tree_double_rotation_keeps_inorder : forall t dir t', drot t dir = Some t' -> bkeys t' = bkeys t /\ bids t' = bids t.
+Proof. exact drot_keys. Qed.
+Print Assumptions C18_tree_double_rotation_keeps_inorder.
+
+(* _make_red / _make_black on ANY heap: only the colour of that node changes in the represented tree *)
+Theorem C18_tree_recolor : forall h x c, 0 < x -> forall t n, rep h n t -> rep (set_red h x c) n (recolor t x c).
+Proof. exact set_red_rep. Qed.
+Print Assumptions C18_tree_recolor.
+
+Theorem C18_tree_recolor_keeps_inorder : forall t x c, bkeys (recolor t x c) = bkeys t /\ bids (recolor t x c) = bids t.
+Proof. exact recolor_keys. Qed.
+Print Assumptions C18_tree_recolor_keeps_inorder.
+
+(* linking a fresh red leaf into an empty child slot (the last step of insert) on ANY heap *)
+Theorem C18_tree_link_leaf : forall h p l rp kp r node k (dir : bool),
+  rep h p (BN l p rp kp r) -> NoDup (bids (BN l p rp kp r)) -> 0 < p -> 0 < node -> ~ In node (bids (BN l p rp kp r)) ->
+  (if dir then r = BL else l = BL) ->
+  let h0 := hset h node (mktn 0 0 true k) in
+  let h' := set_child h0 p dir node in
+  rep h' p (if dir then BN l p rp kp (leaf node k) else BN (leaf node k) p rp kp r) /\
+  (forall id, id <> p -> id <> node -> hget h' id = hget h id).
+Proof. exact link_leaf_rep. Qed.
+Print Assumptions C18_tree_link_leaf.
+
+(* ArenaBitSet::resize growing, as a whole (reallocation through the shared arena included): on kOk the old bits are kept, the
+   new bits have the requested value, the invariant (capacity/64 words in a live arena block released as capacity/8 bytes,
+   unused bits clear) and the arena invariant hold; on kOutOfMemory the bit set is untouched *)
+Theorem C18_bitset_resize_grow : forall mok a b new_size v, inv a -> bs_inv a b -> b_size b < new_size < 2 ^ 31 ->
+  let '(e, a', b') := bs_resize mok a b new_size new_size v in
+  inv a' /\
+  ((e = EOk /\ bs_inv a' b' /\ b_size b' = new_size /\
+    forall j, 0 <= j < new_size -> bs_bit b' j = if j <? b_size b then bs_bit b j else v)
+   \/ (e = EOutOfMemory /\ b' = b /\ bs_inv a' b)).
+Proof. exact bs_resize_grow_sound. Qed.
+Print Assumptions C18_bitset_resize_grow.
+
+(* the same with any ideal capacity >= the new size (the form _append uses) *)
+Theorem C18_bitset_resize_grow_any_ideal : forall mok a b new_size ideal v, inv a -> bs_inv a b -> b_size b < new_size <= ideal -> ideal < 2 ^ 31 ->
+  let '(e, a', b') := bs_resize mok a b new_size ideal v in
+  inv a' /\
+  ((e = EOk /\ bs_inv a' b' /\ b_size b' = new_size /\
+    forall j, 0 <= j < new_size -> bs_bit b' j = if j <? b_size b then bs_bit b j else v)
+   \/ (e = EOutOfMemory /\ b' = b /\ bs_inv a' b)).
+Proof. exact bs_resize_grow_gen. Qed.
+Print Assumptions C18_bitset_resize_grow_any_ideal.
+
+(* resize to a smaller or equal size: kOk, no arena traffic, the bits below the new size kept, unused bits of the last word clear *)
+Theorem C18_bitset_resize_shrink : forall mok a b new_size ideal v, bs_inv a b -> 0 <= new_size <= b_size b ->
+  let '(e, a', b') := bs_resize mok a b new_size ideal v in
+  e = EOk /\ a' = a /\ bs_inv a b' /\ b_size b' = new_size /\ b_cap b' = b_cap b /\ b_data b' = b_data b /\
+  forall j, 0 <= j < new_size -> bs_bit b' j = bs_bit b j.
+Proof. exact bs_resize_shrink_sound. Qed.
+Print Assumptions C18_bitset_resize_shrink.
+
+(* append(arena, value), inline fast path and _append with its growth policy (128 / doubling / +threshold): on kOk the size grows
+   by one, the old bits are kept and the new last bit is the value; on kOutOfMemory the bit set is untouched *)
+Theorem C18_bitset_append : forall mok a b v, inv a -> bs_inv a b -> b_cap b < 2 ^ 30 ->
+  let '(e, a', b') := bs_append mok a b v in
+  inv a' /\
+  ((e = EOk /\ bs_inv a' b' /\ b_size b' = b_size b + 1 /\
+    forall j, 0 <= j < b_size b + 1 -> bs_bit b' j = if j <? b_size b then bs_bit b j else v)
+   \/ (e = EOutOfMemory /\ b' = b /\ bs_inv a' b)).
+Proof. exact bs_append_sound. Qed.
+Print Assumptions C18_bitset_append.
+
+(* release(arena): the word array returns to the arena under its own release class, every other live block stays live *)
+Theorem C18_bitset_release : forall a b, inv a -> bs_inv a b ->
+  let r := bs_release a b in
+  inv (fst r) /\ bs_inv (fst r) (snd r) /\ b_size (snd r) = 0 /\ keeps_others a (fst r) (b_data b).
+Proof. exact bs_release_sound. Qed.
+Print Assumptions C18_bitset_release.
+
+(* set_bit(index, value), index < size, at the bit-set level (uninitialised words beyond the size allowed): invariant kept,
+   bit `index` = value, all other bits unchanged *)
+Theorem C18_bitset_set_bit : forall a b i v, bs_inv a b -> 0 <= i < b_size b ->
+  bs_inv a (bs_set_bit b i v) /\ b_size (bs_set_bit b i v) = b_size b /\
+  forall j, 0 <= j < b_size b -> bs_bit (bs_set_bit b i v) j = if j =? i then v else bs_bit b j.
+Proof. exact bs_set_bit_sound. Qed.
+Print Assumptions C18_bitset_set_bit.
+
+
